@@ -32,6 +32,12 @@ Theorem C07_extend_empty_r : forall o, wf_obj o ->
   obj_length e = obj_length o.
 Proof. exact extend_empty_r. Qed.
 
+(* ... and so are the value of every field and the manifestation *)
+Theorem C07_extend_empty_r_values : forall o, wf_obj o ->
+  (forall m, eval_field (extend o empty_obj) m = eval_field o m) /\
+  manifest (extend o empty_obj) = manifest o.
+Proof. exact extend_empty_r_values. Qed.
+
 (* {} + o : the same, with unchanged indices *)
 Theorem C07_extend_empty_l : forall o, wf_obj o ->
   let e := extend empty_obj o in
@@ -41,6 +47,13 @@ Theorem C07_extend_empty_l : forall o, wf_obj o ->
   get_visible_fields_order e = get_visible_fields_order o /\
   obj_length e = obj_length o.
 Proof. exact extend_empty_l. Qed.
+
+(* values under {} + o: equal, except that `super` in o's base layer, which had no super
+   object, now finds an empty one and reports an unknown field instead *)
+Theorem C07_extend_empty_l_values : forall o m, wf_obj o ->
+  eval_field (extend empty_obj o) m = eval_field o m \/
+  (eval_field (extend empty_obj o) m = Err EUnknownField /\ eval_field o m = Err ENoSuper).
+Proof. exact extend_empty_l_values. Qed.
 
 (* ---- lookup ---- *)
 
@@ -143,6 +156,13 @@ Theorem C07_remove_key_exact : forall o n,
   (forall i m, find_field e (i + 1) m = res_shift 1 (find_field o i m)).
 Proof. exact remove_key_exact. Qed.
 
+(* a field other than n keeps its value, unless evaluating it reads self.n — then it stops
+   with "unknown field" (super.n and `n in super` inside the object are untouched) *)
+Theorem C07_remove_key_values : forall o n m, m <> n ->
+  eval_field (remove_key o n) m = eval_field o m \/
+  eval_field (remove_key o n) m = Err EUnknownField.
+Proof. exact remove_key_values. Qed.
+
 Theorem C07_remove_key_order : forall o n m v, wf_obj o ->
   (In (m, v) (get_fields_order (remove_key o n)) <-> m <> n /\ In (m, v) (get_fields_order o)).
 Proof. exact remove_key_order. Qed.
@@ -195,6 +215,9 @@ Proof. exact prefix_defect_witness. Qed.
 Print Assumptions C07_extend_assoc.
 Print Assumptions C07_extend_empty_r.
 Print Assumptions C07_extend_empty_l.
+Print Assumptions C07_extend_empty_r_values.
+Print Assumptions C07_extend_empty_l_values.
+Print Assumptions C07_remove_key_values.
 Print Assumptions C07_find_field_spec.
 Print Assumptions C07_find_field_found.
 Print Assumptions C07_no_panic_no_fuel.
